@@ -87,21 +87,46 @@ type yielder struct {
 	mu      sync.Mutex
 	atYield map[string]bool
 	prefix  string
+	auto    string // package whose automatically inserted sites count ("state.", ...)
 	rate    int64
 	// onOther, if set, is told when a goroutine that is not an actor passes a site.
 	onOther func(site string)
 }
 
 func (y *yielder) hook(site string) {
-	if !strings.HasPrefix(site, y.prefix) {
+	// Sites inserted automatically at build time (before every lock, after every
+	// unlock of the package: cmd/check/autoyield.go) count like the hand-placed
+	// ones; they also exist in code a change has added.
+	auto := strings.HasPrefix(site, "auto:")
+	if auto {
+		if y.auto == "" || !strings.HasPrefix(site, "auto:"+y.auto) {
+			return
+		}
+	} else if !strings.HasPrefix(site, y.prefix) {
 		return
 	}
 	label := y.s.ActorLabel()
 	if label == "" {
+		if auto && strings.Contains(site, ".track:") {
+			// The tracker's own loop: parked like an actor of its own, so that
+			// callers can run while it stands between two of its steps.
+			y.s.Count("probe.yield.background", 1)
+			y.mu.Lock()
+			y.atYield["bg.track"] = true
+			y.mu.Unlock()
+			y.s.Gate("bg.track", "yield:"+site)
+			y.mu.Lock()
+			y.atYield["bg.track"] = false
+			y.mu.Unlock()
+			return
+		}
 		if f := y.onOther; f != nil {
 			f(site)
 		}
 		return
+	}
+	if auto {
+		site = site[:strings.LastIndexByte(site, '#')]
 	}
 	y.s.Count("probe.yield."+site, 1)
 	y.mu.Lock()
@@ -211,7 +236,7 @@ var trackerModel = porcupine.Model{
 func execTracker(t *testing.T, plan *simkit.Plan) *simkit.Result {
 	var nontrivial bool
 	res := simkit.Run(t, plan, simkit.Options{MaxSteps: 5000, Horizon: 30 * time.Second}, func(s *simkit.Sim) {
-		y := &yielder{s: s, atYield: map[string]bool{}, prefix: "track"}
+		y := &yielder{s: s, atYield: map[string]bool{}, prefix: "track", auto: "state."}
 		verif.YieldHook = y.hook
 		defer func() { verif.YieldHook = nil }()
 		tracker := state.NewTracker()
@@ -437,6 +462,11 @@ func execTracker(t *testing.T, plan *simkit.Plan) *simkit.Result {
 			mu.Lock()
 			defer mu.Unlock()
 			cur := uint64(1 + notifyDone)
+			if y.parked("bg.track") {
+				// The tracker's loop stands between two of its steps (parked by
+				// the simulator): what it has not delivered yet is not overdue.
+				return
+			}
 			for name, ws := range inflight {
 				if y.parked(name) {
 					continue
@@ -867,7 +897,7 @@ func (p *simPrompter) Prompt(m string) (string, error) {
 func execPrompting(t *testing.T, plan *simkit.Plan) *simkit.Result {
 	var nontrivial bool
 	res := simkit.Run(t, plan, simkit.Options{MaxSteps: 5000, Horizon: time.Minute}, func(s *simkit.Sim) {
-		y := &yielder{s: s, atYield: map[string]bool{}, prefix: "prompting."}
+		y := &yielder{s: s, atYield: map[string]bool{}, prefix: "prompting.", auto: "prompting."}
 		verif.YieldHook = y.hook
 		defer func() { verif.YieldHook = nil }()
 		pr := &simPrompter{s: s}
